@@ -142,7 +142,10 @@ def _sut(op: str, fn, *args, **kwargs):
     try:
         return fn(*args, **kwargs)
     except Exception as e:  # noqa: BLE001 - classification is the point
-        raise SutFailure(_failure_record(op, e)) from None
+        rec = _failure_record(op, e)
+        if args:
+            rec["subject"] = _tname(args[0])      # the value the call was about, for the fingerprint
+        raise SutFailure(rec) from None
 
 
 # ---------------------------------------------------------------------------------------------
@@ -195,8 +198,9 @@ class Builder:
     """Interprets one recipe tree.  `share` nodes are memoised per build, so the same *instance* appears
     several times in the value (what exercises the VAL/REF memo of the JSON encoder)."""
 
-    def __init__(self):
+    def __init__(self, validate: bool = False):
         self.shared = {}
+        self.validate = validate      # first construction of a mutated stored example: is it a value at all?
 
     def build(self, r):
         return getattr(self, "b_" + r[0])(*r[1:])
@@ -491,9 +495,22 @@ class Builder:
         a legal instance built with non-default / falsy / unsorted arguments; what they refuse is discarded."""
         _import_named_contrib_modules(text)
         try:
-            return eval(text, dict(EVAL_GLOBALS), {})
+            with _cpu_limit(MUTATED_EVAL_CPU_SECONDS):
+                v = eval(text, dict(EVAL_GLOBALS), {})
+        except _CpuLimit:
+            raise Rejected("cpu-limit") from None
         except Exception as e:  # noqa: BLE001
             raise Rejected(type(e).__name__) from None
+        if self.validate:
+            original = self.b_corpus(pkg, name)
+            if not _same_skeleton(original, v):
+                raise Rejected("changed-type")      # e.g. sympy.Ne(a, a) collapses to BooleanFalse
+            with _cpu_limit(MUTATED_EVAL_CPU_SECONDS):
+                again = eval(text, dict(EVAL_GLOBALS), {})
+            # An exception from == is not filtered here: it travels on as a failure of the code under test.
+            if not (_sut("mutated:eq", _eq, v, again) and _sut("mutated:eq", _eq, again, v)):
+                raise Rejected("not-self-equal")    # e.g. a NaN: no oracle can use a rebuilt reference
+        return v
 
     def b_corpus(self, pkg, name):
         path = os.path.join(ROOT, CORPUS_DIRS[pkg], name + ".repr")
@@ -515,6 +532,64 @@ def _import_named_contrib_modules(text: str) -> None:
             importlib.import_module("cirq.contrib." + name)
         except ImportError:
             pass
+
+
+MUTATED_EVAL_CPU_SECONDS = 4.0
+
+
+class _CpuLimit(BaseException):
+    pass
+
+
+class _cpu_limit:
+    """Bounds the *CPU time of this process* spent in a block (ITIMER_VIRTUAL: independent of machine load, so
+    the same text is rejected or accepted on every machine).  A mutated literal can send a constructor into a
+    loop (sympy.Float(..., precision=-1))."""
+
+    def __init__(self, seconds: float):
+        self.seconds = seconds
+
+    def __enter__(self):
+        import signal
+
+        def _raise(signum, frame):
+            raise _CpuLimit()
+
+        self._prev = signal.signal(signal.SIGVTALRM, _raise)
+        signal.setitimer(signal.ITIMER_VIRTUAL, self.seconds)
+        return self
+
+    def __exit__(self, *exc):
+        import signal
+        signal.setitimer(signal.ITIMER_VIRTUAL, 0)
+        signal.signal(signal.SIGVTALRM, self._prev)
+        return False
+
+
+_SCALARS = (type(None), bool, int, float, complex, str)
+
+
+def _same_skeleton(a, b, depth=0) -> bool:
+    """Same classes in the same places (walking _json_dict_ trees in parallel); scalar leaves may differ in
+    value and scalar type.  A mutated stored example must still be an instance of the classes it exercises."""
+    if isinstance(a, _SCALARS) and isinstance(b, _SCALARS):
+        return True
+    if isinstance(a, np.generic) and isinstance(b, np.generic):
+        return True
+    if type(a) != type(b):  # noqa: E721
+        return False
+    if isinstance(a, np.ndarray):
+        return a.shape == b.shape
+    if depth > 60:
+        return True
+    if isinstance(a, dict):          # keys may have been mutated: pair the entries in order
+        return len(a) == len(b) and all(
+            _same_skeleton(ka, kb, depth + 1) and _same_skeleton(a[ka], b[kb], depth + 1)
+            for ka, kb in zip(a, b))
+    kids = _children(a, b)
+    if kids is None:
+        return False
+    return all(_same_skeleton(x, y, depth + 1) for _, x, y in kids)
 
 
 class Rejected(Exception):
@@ -640,6 +715,13 @@ def _derive_one(x, method: str, args):
     raise ValueError(f"unknown derivation {method!r}")
 
 
+def _derive_checked(x, method: str, args):
+    r = _derive_one(x, method, args)
+    if not _is_cirq_obj(r):
+        raise NotApplicable      # e.g. cirq.inverse of an iterable is a tuple: not a value of a registered class
+    return r
+
+
 def derive(v, method: str, args):
     """Top-level lists (most stored examples are lists of instances) are derived element by element; elements
     the method does not apply to stay as they are."""
@@ -647,14 +729,14 @@ def derive(v, method: str, args):
         out, n = [], 0
         for x in v:
             try:
-                out.append(_derive_one(x, method, args))
+                out.append(_derive_checked(x, method, args))
                 n += 1
             except NotApplicable:
                 out.append(x)
         if not n:
             raise NotApplicable
         return out
-    return _derive_one(v, method, args)
+    return _derive_checked(v, method, args)
 
 
 def derive_family(v) -> str:
@@ -996,7 +1078,7 @@ def _describe(v) -> dict:
 
 def op_build(req):
     try:
-        v = build_value(req["recipe"])
+        v = Builder(validate=True).build(req["recipe"])
     except Rejected as r:
         return {"rejected": True, "exc_type": str(r)}
     HELD[req["slot"]] = v
